@@ -73,7 +73,19 @@ fn full_cmd(g: &mut Gen) -> (String, Command) {
         26 => Command::RandomKey, 27 => Command::Select(g.rng.gen_range(0..16)),
         // AUTH and ACL WHOAMI/LIST/USERS/GETUSER/SETUSER/DELUSER are answered by the connection layer and never reach
         // CommandExecutor::execute (which debug-asserts that routing contract); they are not sent here.
-        28 => Command::IncrByFloat(k(g), g.pick(&[0.5, -0.5, 1e308])),
+        // option sets that cannot be written as model commands: several expiry forms at once, KEEPTTL or PERSIST next to
+        // an expiry form, every subset of the boolean flags (SET, GETEX, EXPIRE, PEXPIRE, ZADD)
+        28 => { let o = |g: &mut Gen, v: i64| if g.chance(0.35) { Some(v) } else { None };
+                let (now_s, now_ms) = ((g.now / 1000) as i64, g.now as i64);
+                let pxv = g.pick(&[700i64, 0, -1]);
+                match g.rng.gen_range(0..5) {
+                    0 | 1 => Command::Set { key: k(g), value: SDS::new(g.val()), ex: o(g, 5), px: o(g, pxv), exat: o(g, now_s + 3), pxat: o(g, now_ms + 900),
+                                            nx: g.chance(0.4), xx: g.chance(0.4), get: g.chance(0.4), keepttl: g.chance(0.4) },
+                    2 => Command::GetEx { key: k(g), ex: o(g, 5), px: o(g, pxv), exat: o(g, now_s + 3), pxat: o(g, now_ms + 900), persist: g.chance(0.5) },
+                    3 => if g.chance(0.5) { Command::Expire { key: k(g), seconds: g.pick(&[5, 0, -1, i64::MAX]), nx: g.chance(0.5), xx: g.chance(0.5), gt: g.chance(0.5), lt: g.chance(0.5) } }
+                         else { Command::PExpire { key: k(g), milliseconds: g.pick(&[700, 0, -1, i64::MAX]), nx: g.chance(0.5), xx: g.chance(0.5), gt: g.chance(0.5), lt: g.chance(0.5) } },
+                    _ => Command::ZAdd { key: k(g), pairs: vec![(g.score() as f64, SDS::new(g.member()))], nx: g.chance(0.5), xx: g.chance(0.5), gt: g.chance(0.5), lt: g.chance(0.5), ch: g.chance(0.5) },
+                } }
         // sorted sets with float scores (outside the model): infinities, fractions, ties
         29..=30 => { let n = g.rng.gen_range(1..=2);
                      let (nx, xx, gt, lt) = g.pick(&[(false, false, false, false), (false, false, false, false), (true, false, false, false), (false, true, false, false), (false, false, true, false), (false, false, false, true)]);
